@@ -30,7 +30,7 @@ CONSTANTS
 
 (* the standard universe used by MC_WorkingCopy, Trace_WorkingCopy and the    *)
 (* harness (harness/jjconf/src/bin/wc/script.rs: PATHS, VOCAB)               *)
-StdPathOrder == << <<"gi">>, <<"d">>, <<"d", "gi">>, <<"d", "x">>, <<"d", "y">>, <<"f">> >>
+StdPathOrder == << <<"gi">>, <<"d">>, <<"d", "gi">>, <<"d", "x">>, <<"d", "x", "z">>, <<"d", "y">>, <<"f">> >>
 StdPaths == {StdPathOrder[i] : i \in 1..Len(StdPathOrder)}
 Pat(neg, anch, dironly, name) == [neg |-> neg, anch |-> anch, dironly |-> dironly, name |-> name]
 StdIgnoreVocab == <<
@@ -45,7 +45,8 @@ StdIgnoreVocab == <<
 ---------------------------------------------------------------------------
 (* VOCABULARY                                                               *)
 (* One record shape for every value (TLC compares them freely):             *)
-(*   k  "absent" | "file" | "symlink" | "dir" (disk only) | "conflict" (tree only) *)
+(*   k  "absent" | "file" | "symlink" | "dir" | "special" (disk only: directory,    *)
+(*      fifo/socket) | "conflict" (tree only)                                 *)
 (*   c  content id of a file (0 otherwise; 0 for a conflict marker file)    *)
 (*   x  executable bit                                                      *)
 (*   t  symlink target                                                      *)
@@ -56,6 +57,7 @@ Absent     == V("absent", 0, FALSE, "", <<>>)
 File(c, x) == V("file", c, x, "", <<>>)
 Sym(t)     == V("symlink", 0, FALSE, t, <<>>)
 DirV       == V("dir", 0, FALSE, "", <<>>)
+SpecialV   == V("special", 0, FALSE, "", <<>>)      \* a fifo: exists, is neither file, symlink nor directory
 Conf(m)    == V("conflict", 0, FALSE, "", m)
 MatFile(m, x) == V("file", 0, x, "", m)
 
@@ -69,9 +71,13 @@ Parent(p) == SubSeq(p, 1, Len(p) - 1)
 Children(d) == {p \in Paths : Len(p) = Len(d) + 1 /\ IsPrefix(d, p)}
 Under(d) == {p \in Paths : Len(p) > Len(d) /\ IsPrefix(d, p)}
 IsIgnorePath(p) == p[Len(p)] = "gi"          \* "gi" stands for ".gitignore"
-CanBeDir(p) == Under(p) # {}
+(* any path but an ignore file may become a directory (an EMPTY one if the universe has *)
+(* nothing below it)                                                                  *)
+CanBeDir(p) == ~IsIgnorePath(p)
+Ancestors(p) == {SubSeq(p, 1, n) : n \in 1..Len(p) - 1}
 Pos(p) == CHOOSE i \in 1..Len(PathOrder) : PathOrder[i] = p
 MaxOf(S) == CHOOSE x \in S : \A y \in S : y <= x
+MinOf(S) == CHOOSE x \in S : \A y \in S : x <= y
 
 (* sparse patterns are path prefixes (PrefixMatcher) *)
 SparseMatch(sp, p) == \E q \in sp : IsPrefix(q, p)
@@ -119,7 +125,7 @@ IgnoredAlong(disk, p) ==
 (*  sparse  set of prefixes                                                 *)
 (*  xp      "respect" | "ignore"    working-copy.exec-bit-change            *)
 (*  stats   result of the last CheckOut / SetSparse                         *)
-(*  err     "" | "panic"                                                    *)
+(*  err     "" | "panic" | "error" (the jj command failed)                  *)
 NoStats == [added |-> 0, updated |-> 0, removed |-> 0, skipped |-> 0]
 OutNames == {"x", "y"}
 InitOut == [n \in OutNames |-> IF n = "x" THEN File(1, FALSE) ELSE Absent]
@@ -143,11 +149,14 @@ DoChmod(s, p) == [s EXCEPT !.disk[p].x = ~s.disk[p].x]
 (* rm -f p; ln -s t p *)
 CanSymlink(s, p, t) == ParentIsDir(s.disk, p) /\ s.disk[p].k \in {"absent", "file", "symlink"} /\ ~IsIgnorePath(p)
 DoSymlink(s, p, t) == [s EXCEPT !.disk[p] = Sym(t)]
-CanDelete(s, p) == FileLike(s.disk[p])
+CanDelete(s, p) == FileLike(s.disk[p]) \/ s.disk[p].k = "special"
 DoDelete(s, p) == [s EXCEPT !.disk[p] = Absent]
 (* rm -f p; mkdir p : a file (or nothing) becomes a directory *)
 CanFileToDir(s, p) == CanBeDir(p) /\ ParentIsDir(s.disk, p) /\ s.disk[p].k # "dir"
 DoFileToDir(s, p) == [s EXCEPT !.disk[p] = DirV]
+(* rm -f p; mkfifo p : a file (or nothing) becomes a special file *)
+CanMkfifo(s, p) == ~IsIgnorePath(p) /\ ParentIsDir(s.disk, p) /\ s.disk[p].k \in {"absent", "file", "symlink"}
+DoMkfifo(s, p) == [s EXCEPT !.disk[p] = SpecialV]
 (* rm -rf p *)
 CanRmTree(s, p) == s.disk[p].k = "dir"
 DoRmTree(s, p) == [s EXCEPT !.disk = [q \in Paths |-> IF IsPrefix(p, q) THEN Absent ELSE s.disk[q]]]
@@ -164,7 +173,12 @@ DoDirToFile(s, p, c) ==
 (* looked at (the file states prefixed by the directory, itself included)   *)
 VisitTracked(s, dir) ==
   LET ps == {q \in Paths : IsPrefix(dir, q) /\ Tracked(s, q) /\ SparseMatch(s.sparse, q)}
-  IN [upd |-> {q \in ps : FileLike(s.disk[q])}, del |-> {q \in ps : ~FileLike(s.disk[q])}]
+  IN [upd |-> {q \in ps : FileLike(s.disk[q])},
+      del |-> {q \in ps : IF Bug = "snap-tracked-nonfile" THEN s.disk[q].k = "absent"   \* seeded bug
+                          ELSE ~FileLike(s.disk[q])},
+      (* symlink_metadata of a tracked path below something that is not a directory   *)
+      (* fails with ENOTDIR, which is not NotFound: the whole snapshot fails (F7)      *)
+      err |-> \E q \in ps : \E r \in Ancestors(q) : Len(r) > Len(dir) /\ s.disk[r].k \in {"file", "special"}]
 
 (* visit_directory + process_dir_entry + emit_deleted_files *)
 RECURSIVE VisitDir(_, _)
@@ -177,9 +191,9 @@ VisitDir(s, dir) ==
       (* present file entries: matched by the sparse patterns and tracked or not ignored *)
       files == {e \in entries : FileLike(s.disk[e]) /\ SparseMatch(s.sparse, e) /\ ~ignoredUntracked(e)}
       sub(e) == IF Ignored(s.disk, e, TRUE)
-                THEN (IF Bug = "snap-skip-ignored-dir" THEN [upd |-> {}, del |-> {}] ELSE VisitTracked(s, e))
+                THEN (IF Bug = "snap-skip-ignored-dir" THEN [upd |-> {}, del |-> {}, err |-> FALSE] ELSE VisitTracked(s, e))
                 ELSE IF SparseVisit(s.sparse, e) THEN VisitDir(s, e)
-                ELSE [upd |-> {}, del |-> {}]
+                ELSE [upd |-> {}, del |-> {}, err |-> FALSE]
       (* emit_deleted_files: tracked paths of this directory's file states whose    *)
       (* first component below `dir` is not a present entry of the right kind       *)
       cand == {q \in Paths : IsPrefix(dir, q) /\ Tracked(s, q)
@@ -190,7 +204,8 @@ VisitDir(s, dir) ==
                  ELSE (IF Bug = "snap-no-dir-delete" THEN FALSE
                        ELSE SubSeq(q, 1, Len(dir) + 1) \notin dirs)}
   IN [upd |-> files \cup UNION {sub(e).upd : e \in dirs},
-      del |-> gone \cup UNION {sub(e).del : e \in dirs}]
+      del |-> gone \cup UNION {sub(e).del : e \in dirs},
+      err |-> \E e \in dirs : sub(e).err]
 
 (* get_updated_tree_value / write_path_to_store for a present entry *)
 SnapValue(s, p) ==
@@ -209,13 +224,14 @@ StatePathsOK(s) ==
   \A p \in Paths : Tracked(s, p) <=> (SparseMatch(s.sparse, p) /\ s.tree[p].k # "absent")
 (* path_value(p) is an unresolved merge of differing TREES when some path below p is    *)
 (* conflicted; get_updated_tree_value then keeps the current value, i.e. emits nothing   *)
+(* for a regular file (a symlink is always written as a new resolved value)              *)
 DirConflictAt(s, p) == \E q \in Under(p) : s.tree[q].k = "conflict"
 DoSnapshot(s) ==
   IF ~SparseVisit(s.sparse, <<>>) THEN s      \* nothing to visit
   ELSE
     LET w == VisitDir(s, <<>>)
         (* overrides handed to the MergedTreeBuilder *)
-        emit == {p \in w.upd : ~DirConflictAt(s, p) /\ SnapValue(s, p) # s.tree[p]}
+        emit == {p \in w.upd : ~(s.disk[p].k = "file" /\ DirConflictAt(s, p)) /\ SnapValue(s, p) # s.tree[p]}
         ovr == emit \cup w.del
         (* a tombstone on a path that is a directory of the tree removes the whole subtree, *)
         (* unless some override below it makes the TreeBuilder rewrite that directory       *)
@@ -225,7 +241,8 @@ DoSnapshot(s) ==
                                     ELSE IF p \in emit THEN SnapValue(s, p) ELSE s.tree[p]],
           !.fs = [p \in Paths |-> IF p \in w.del THEN NoFS
                                   ELSE IF p \in w.upd THEN FS(s.disk[p].k, s.disk[p].x) ELSE s.fs[p]]]
-    IN IF StatePathsOK(s2) THEN s2
+    IN IF w.err THEN [s EXCEPT !.err = "error"]    \* "Failed to stat file": the command fails
+       ELSE IF StatePathsOK(s2) THEN s2
        ELSE [s EXCEPT !.err = "panic"]    \* debug builds: the process dies, nothing is saved
 
 ---------------------------------------------------------------------------
@@ -240,9 +257,11 @@ OrderKey(old, new, p) ==
 FsOrder(old, new, S) ==
   SetToSortSeq(S, LAMBDA a, b : OrderKey(old, new, a) < OrderKey(old, new, b))
 
+(* remove the now-empty parent directories, innermost first, as far as they are empty *)
+RECURSIVE RemoveEmptyParents(_, _)
 RemoveEmptyParents(disk, p) ==
   IF Len(p) > 1 /\ Bug # "co-keep-dirs" /\ \A q \in Children(Parent(p)) : disk[q].k = "absent"
-  THEN [disk EXCEPT ![Parent(p)] = Absent] ELSE disk
+  THEN RemoveEmptyParents([disk EXCEPT ![Parent(p)] = Absent], Parent(p)) ELSE disk
 
 (* w = [disk, out, fs, stats]; b / a = value before / after at path p *)
 Count(w, b, a) ==
@@ -256,21 +275,25 @@ SkipEntry(w, p) == [w EXCEPT !.fs[p] = FS("file", FALSE), !.stats.skipped = @ + 
 EntryStep(w0, xp, p, b, a) ==
   LET w == Count(w0, b, a)
       par == Parent(p)
-      parKind == IF Len(p) = 1 THEN "dir" ELSE w.disk[par].k
+      (* create_parent_dirs walks the ancestors from the top: the first one that is not a   *)
+      (* directory decides (absent: it and everything below is created; anything else: skip) *)
+      nondir == {n \in 1..Len(p) - 1 : w.disk[SubSeq(p, 1, n)].k # "dir"}
+      parKind == IF nondir = {} THEN "dir" ELSE w.disk[SubSeq(p, 1, MinOf(nondir))].k
       xw == IF xp = "respect" THEN a.x
             ELSE IF w.fs[p].k = "file" THEN w.fs[p].x ELSE FALSE
       newv == IF a.k = "conflict" THEN MatFile(a.m, xw)
               ELSE IF a.k = "file" THEN File(a.c, xw) ELSE a
   IN
-  IF parKind = "symlink" /\ w.disk[par].t = "out" /\ Bug = "co-follow-symlink"
+  IF parKind = "symlink" /\ Len(p) = 2 /\ w.disk[par].t = "out" /\ Bug = "co-follow-symlink"
   THEN (* seeded bug: the path is resolved through the symlinked directory *)
        [w EXCEPT !.out[p[Len(p)]] = newv, !.fs[p] = IF a.k = "absent" THEN NoFS ELSE FS(newv.k, newv.x),
                  !.pushed = IF a.k = "absent" THEN @ ELSE Append(@, p)]
-  ELSE IF parKind \in {"file", "symlink"}
+  ELSE IF parKind \in {"file", "symlink", "special"}
   THEN SkipEntry(w, p)                                    \* create_parent_dirs: not a directory
   ELSE
-    LET d1 == IF parKind = "absent" THEN [w.disk EXCEPT ![par] = DirV] ELSE w.disk
-        deleted == b.k # "absent" /\ FileLike(d1[p])      \* remove_old_file
+    LET d1 == [q \in Paths |-> IF q \in Ancestors(p) /\ w.disk[q].k = "absent" THEN DirV ELSE w.disk[q]]
+        (* remove_old_file unlinks whatever non-directory is there *)
+        deleted == b.k # "absent" /\ d1[p].k \in {"file", "symlink", "special"}
         d2 == IF deleted THEN [d1 EXCEPT ![p] = Absent] ELSE d1
         blocked == ~deleted /\ d2[p].k # "absent"         \* can_create_new_file
     IN
@@ -394,7 +417,7 @@ CheckOutSafe(s, new, s2) ==
 SparseOK(s, sp, s2) ==
   LET entering == {p \in Paths : SparseMatch(sp, p) /\ ~SparseMatch(s.sparse, p)}
       leaving == {p \in Paths : SparseMatch(s.sparse, p) /\ ~SparseMatch(sp, p)}
-      parentOK(p) == IF Len(p) = 1 THEN TRUE ELSE s.disk[Parent(p)].k \in {"dir", "absent"}
+      parentOK(p) == \A q \in Ancestors(p) : s.disk[q].k \in {"dir", "absent"}
   IN
   /\ s2.err = ""
   /\ s2.tree = s.tree
@@ -445,7 +468,7 @@ SparseContract(s, sp, t) ==
 SparsePanicShape(s, sp) ==
   \E p \in Paths : /\ SparseMatch(s.sparse, p) /\ ~SparseMatch(sp, p) /\ s.tree[p].k # "absent"
                     /\ (s.disk[p].k = "dir"
-                        \/ (IF Len(p) > 1 THEN s.disk[Parent(p)].k \in {"file", "symlink"} ELSE FALSE))
+                        \/ \E q \in Ancestors(p) : s.disk[q].k \in {"file", "symlink", "special"})
 (* F2: a skipped update entry leaves a placeholder file state behind; if the   *)
 (*     path lies outside the sparse patterns no snapshot cleans it up and the  *)
 (*     debug assertion "file states = tree paths" fires.                       *)
@@ -455,22 +478,39 @@ StaleStateShape(s) == \E p \in Paths : Tracked(s, p) /\ ~SparseMatch(s.sparse, p
 (*     unresolved merge of trees at that path, keeps it, and the new file is   *)
 (*     never recorded (the directory's entries are removed): debug assertion.  *)
 DirConflictShape(s) ==
-  \E p \in Paths : FileLike(s.disk[p]) /\ SparseMatch(s.sparse, p) /\ DirConflictAt(s, p)
+  \E p \in Paths : s.disk[p].k = "file" /\ SparseMatch(s.sparse, p) /\ DirConflictAt(s, p)
 (* F5: a (placeholder) file state on a path that is a directory on disk: the   *)
 (*     snapshot reports the path deleted and the tombstone removes the whole   *)
 (*     directory from the tree although its files are on disk and clean.       *)
-TrackedDirShape(s) == \E p \in Paths : Tracked(s, p) /\ s.disk[p].k = "dir"
+TrackedDirShape(s) ==
+  \E p \in Paths : Tracked(s, p) /\ s.disk[p].k = "dir" /\ \E q \in Under(p) : s.tree[q].k # "absent"
 (* F6: the same placeholder state (F2, F5) on a path that is not in the tree    *)
 (*     makes the walk treat an ignored, untracked file as "already tracked":   *)
 (*     the snapshot records it (SnapshotOK fails, no panic).                   *)
 StaleIgnoredShape(s) ==
   \E p \in Paths : /\ Tracked(s, p) /\ s.tree[p].k = "absent" /\ FileLike(s.disk[p])
                     /\ SparseMatch(s.sparse, p) /\ IgnoredAlong(s.disk, p)
-(* F3: a directory of the old tree is a file or symlink on disk and the new    *)
-(*     tree has a file at that path: the skipped removals below it are pushed  *)
-(*     before the path itself, so the changed file states are not sorted       *)
+(* F7: a tracked path inside a directory that is ignored as a whole lies below   *)
+(*     something that is no longer a directory (its parent directory was        *)
+(*     replaced by a file or fifo): visit_tracked_files gets ENOTDIR from       *)
+(*     symlink_metadata, which is not NotFound, and the snapshot (hence every   *)
+(*     jj command) fails with "Failed to stat file" instead of recording the    *)
+(*     path as deleted.                                                         *)
+NotDirShape(s) ==
+  \E p \in Paths : /\ Tracked(s, p) /\ SparseMatch(s.sparse, p)
+                    /\ \E r \in Ancestors(p) : /\ s.disk[r].k \in {"file", "special"}
+                                               /\ \E g \in Ancestors(r) : Ignored(s.disk, g, TRUE)
+(* F3: the new tree has a file where the old tree has a directory, and the     *)
+(*     removal of an old entry below it is skipped (the directory was replaced *)
+(*     on disk by a file/symlink, or the entry itself by a directory): the     *)
+(*     skipped entries are pushed before the path itself, so the changed file  *)
+(*     states are not sorted                                                   *)
 (*     (debug assertion in FileStatesMap::merge_in; unsorted states in release)*)
 UnsortedShape(s, new) ==
-  \E p \in Paths : /\ SparseMatch(s.sparse, p) /\ new[p].k # "absent" /\ FileLike(s.disk[p])
-                    /\ \E q \in Under(p) : SparseMatch(s.sparse, q) /\ s.tree[q].k # "absent"
+  \E p \in Paths :
+     /\ SparseMatch(s.sparse, p) /\ new[p].k # "absent"
+     /\ \E q \in Under(p) :
+          /\ SparseMatch(s.sparse, q) /\ s.tree[q].k # "absent"
+          (* the removal of q is skipped: q is a directory now, or lies below a non-directory *)
+          /\ (s.disk[q].k = "dir" \/ \E r \in Ancestors(q) : s.disk[r].k \in {"file", "symlink", "special"})
 =============================================================================
